@@ -87,6 +87,8 @@ type Tables struct {
 	Tasks     map[string]*Task
 	// highest sort ids ever handed out (AUTOINCREMENT / SERIAL)
 	SeqPromises, SeqSchedules, SeqTasks int64
+	// rowid -> key, per table (snapshots only; used to apply row changes)
+	idx map[string]map[int64]string
 }
 
 func New() *Tables {
@@ -115,27 +117,30 @@ func cpi(s *int64) *int64 {
 	return &v
 }
 
+// Clone copies the tables; rows are shared (every mutation in this package
+// replaces a row by a modified copy, rows themselves are never written to).
 func (t *Tables) Clone() *Tables {
-	n := New()
+	n := &Tables{
+		Promises:  make(map[string]*Promise, len(t.Promises)),
+		Callbacks: make(map[string]*Callback, len(t.Callbacks)),
+		Schedules: make(map[string]*Schedule, len(t.Schedules)),
+		Locks:     make(map[string]*Lock, len(t.Locks)),
+		Tasks:     make(map[string]*Task, len(t.Tasks)),
+	}
 	for k, v := range t.Promises {
-		c := *v
-		n.Promises[k] = &c
+		n.Promises[k] = v
 	}
 	for k, v := range t.Callbacks {
-		c := *v
-		n.Callbacks[k] = &c
+		n.Callbacks[k] = v
 	}
 	for k, v := range t.Schedules {
-		c := *v
-		n.Schedules[k] = &c
+		n.Schedules[k] = v
 	}
 	for k, v := range t.Locks {
-		c := *v
-		n.Locks[k] = &c
+		n.Locks[k] = v
 	}
 	for k, v := range t.Tasks {
-		c := *v
-		n.Tasks[k] = &c
+		n.Tasks[k] = v
 	}
 	n.SeqPromises, n.SeqSchedules, n.SeqTasks = t.SeqPromises, t.SeqSchedules, t.SeqTasks
 	return n
@@ -325,124 +330,242 @@ func ni(v sql.NullInt64) *int64 {
 	return &i
 }
 
-// Load reads a full snapshot. The caller guarantees no writer is active (or
-// that reading the last committed state is what is wanted).
-func Load(db *sql.DB) (*Tables, error) {
-	t := New()
+// Apply returns the snapshot that results from prev after the listed rows
+// changed: only those rows are read again. Rows are shared with prev
+// (snapshots are read-only).
+func Apply(prev *Tables, db *sql.DB, changed map[string][]int64) (*Tables, error) {
+	if prev.idx == nil {
+		return Load(db)
+	}
+	t := &Tables{Promises: prev.Promises, Callbacks: prev.Callbacks, Schedules: prev.Schedules, Locks: prev.Locks, Tasks: prev.Tasks, idx: map[string]map[int64]string{}}
+	for k, v := range prev.idx {
+		t.idx[k] = v
+	}
 	tx, err := db.Begin()
 	if err != nil {
 		return nil, err
 	}
 	defer tx.Rollback() //nolint
-
-	rows, err := tx.Query(`SELECT id, sort_id, state, param_headers, param_data, value_headers, value_data, timeout, idempotency_key_for_create, idempotency_key_for_complete, tags, created_on, completed_on FROM promises`)
-	if err != nil {
-		return nil, err
-	}
-	for rows.Next() {
-		p := &Promise{}
-		var id, ph, pd, vh, vd, ikc, iku, tags sql.NullString
-		var state, timeout, co, cm sql.NullInt64
-		if err := rows.Scan(&id, &p.SortId, &state, &ph, &pd, &vh, &vd, &timeout, &ikc, &iku, &tags, &co, &cm); err != nil {
-			rows.Close()
-			return nil, err
+	for table, rowids := range changed {
+		// copy on write
+		ix := map[int64]string{}
+		for k, v := range prev.idx[table] {
+			ix[k] = v
 		}
-		p.Id, p.State, p.Timeout = id.String, int(state.Int64), timeout.Int64
-		p.ParamHeaders, p.ParamData, p.ValueHeaders, p.ValueData = ns(ph), ns(pd), ns(vh), ns(vd)
-		p.IkCreate, p.IkComplete, p.Tags, p.CreatedOn, p.CompletedOn = ns(ikc), ns(iku), ns(tags), ni(co), ni(cm)
-		t.Promises[p.Id] = p
-	}
-	rows.Close()
-
-	rows, err = tx.Query(`SELECT id, promise_id, root_promise_id, recv, mesg, timeout, created_on FROM callbacks`)
-	if err != nil {
-		return nil, err
-	}
-	for rows.Next() {
-		c := &Callback{}
-		var id, pid, rid, recv, mesg sql.NullString
-		var timeout, co sql.NullInt64
-		if err := rows.Scan(&id, &pid, &rid, &recv, &mesg, &timeout, &co); err != nil {
-			rows.Close()
-			return nil, err
+		t.idx[table] = ix
+		switch table {
+		case "promises":
+			m := make(map[string]*Promise, len(prev.Promises))
+			for k, v := range prev.Promises {
+				m[k] = v
+			}
+			t.Promises = m
+		case "callbacks":
+			m := make(map[string]*Callback, len(prev.Callbacks))
+			for k, v := range prev.Callbacks {
+				m[k] = v
+			}
+			t.Callbacks = m
+		case "schedules":
+			m := make(map[string]*Schedule, len(prev.Schedules))
+			for k, v := range prev.Schedules {
+				m[k] = v
+			}
+			t.Schedules = m
+		case "locks":
+			m := make(map[string]*Lock, len(prev.Locks))
+			for k, v := range prev.Locks {
+				m[k] = v
+			}
+			t.Locks = m
+		case "tasks":
+			m := make(map[string]*Task, len(prev.Tasks))
+			for k, v := range prev.Tasks {
+				m[k] = v
+			}
+			t.Tasks = m
+		default:
+			continue
 		}
-		c.Id, c.PromiseId, c.RootPromiseId, c.Recv, c.Mesg, c.Timeout, c.CreatedOn = id.String, pid.String, rid.String, ns(recv), ns(mesg), timeout.Int64, co.Int64
-		t.Callbacks[c.Id] = c
-	}
-	rows.Close()
-
-	rows, err = tx.Query(`SELECT id, sort_id, description, cron, tags, promise_id, promise_timeout, promise_param_headers, promise_param_data, promise_tags, last_run_time, next_run_time, idempotency_key, created_on FROM schedules`)
-	if err != nil {
-		return nil, err
-	}
-	for rows.Next() {
-		s := &Schedule{}
-		var id, desc, cron, tags, pid, pph, ppd, ptags, ik sql.NullString
-		var pto, last, next, co sql.NullInt64
-		if err := rows.Scan(&id, &s.SortId, &desc, &cron, &tags, &pid, &pto, &pph, &ppd, &ptags, &last, &next, &ik, &co); err != nil {
-			rows.Close()
-			return nil, err
-		}
-		s.Id, s.Description, s.Cron, s.Tags, s.PromiseId, s.PromiseTimeout = id.String, ns(desc), cron.String, ns(tags), pid.String, pto.Int64
-		s.PromiseParamHeaders, s.PromiseParamData, s.PromiseTags, s.LastRunTime, s.NextRunTime, s.IdempotencyKey, s.CreatedOn = ns(pph), ns(ppd), ns(ptags), ni(last), next.Int64, ns(ik), co.Int64
-		t.Schedules[s.Id] = s
-	}
-	rows.Close()
-
-	rows, err = tx.Query(`SELECT resource_id, execution_id, process_id, ttl, CAST(expires_at AS INTEGER) FROM locks`)
-	if err != nil {
-		return nil, err
-	}
-	for rows.Next() {
-		l := &Lock{}
-		var rid, eid, pid sql.NullString
-		var ttl, exp sql.NullInt64
-		if err := rows.Scan(&rid, &eid, &pid, &ttl, &exp); err != nil {
-			rows.Close()
-			return nil, err
-		}
-		l.ResourceId, l.ExecutionId, l.ProcessId, l.Ttl, l.ExpiresAt = rid.String, eid.String, pid.String, ttl.Int64, exp.Int64
-		t.Locks[l.ResourceId] = l
-	}
-	rows.Close()
-
-	rows, err = tx.Query(`SELECT id, sort_id, process_id, state, root_promise_id, recv, mesg, timeout, counter, attempt, ttl, CAST(expires_at AS INTEGER), created_on, completed_on FROM tasks`)
-	if err != nil {
-		return nil, err
-	}
-	for rows.Next() {
-		k := &Task{}
-		var id, pid, rid, recv, mesg sql.NullString
-		var state, timeout, counter, attempt, ttl, exp, co, cm sql.NullInt64
-		if err := rows.Scan(&id, &k.SortId, &pid, &state, &rid, &recv, &mesg, &timeout, &counter, &attempt, &ttl, &exp, &co, &cm); err != nil {
-			rows.Close()
-			return nil, err
-		}
-		k.Id, k.ProcessId, k.State, k.RootPromiseId, k.Recv, k.Mesg = id.String, ns(pid), int(state.Int64), rid.String, ns(recv), ns(mesg)
-		k.Timeout, k.Counter, k.Attempt, k.Ttl, k.ExpiresAt, k.CreatedOn, k.CompletedOn = timeout.Int64, counter.Int64, attempt.Int64, ttl.Int64, exp.Int64, ni(co), ni(cm)
-		t.Tasks[k.Id] = k
-	}
-	rows.Close()
-
-	rows, err = tx.Query(`SELECT name, seq FROM sqlite_sequence`)
-	if err == nil {
-		for rows.Next() {
-			var name string
-			var seq int64
-			if err := rows.Scan(&name, &seq); err != nil {
-				rows.Close()
+		seen := map[int64]bool{}
+		for _, rowid := range rowids {
+			if seen[rowid] {
+				continue
+			}
+			seen[rowid] = true
+			if old, ok := ix[rowid]; ok {
+				switch table {
+				case "promises":
+					delete(t.Promises, old)
+				case "callbacks":
+					delete(t.Callbacks, old)
+				case "schedules":
+					delete(t.Schedules, old)
+				case "locks":
+					delete(t.Locks, old)
+				case "tasks":
+					delete(t.Tasks, old)
+				}
+				delete(ix, rowid)
+			}
+			if err := loadInto(t, tx, table, " WHERE rowid = ?", rowid); err != nil {
 				return nil, err
 			}
-			switch name {
-			case "promises":
-				t.SeqPromises = seq
-			case "schedules":
-				t.SeqSchedules = seq
-			case "tasks":
-				t.SeqTasks = seq
-			}
 		}
-		rows.Close()
+	}
+	if err := loadSeq(t, tx); err != nil {
+		return nil, err
 	}
 	return t, nil
+}
+
+// Load reads a full snapshot. The caller guarantees no writer is active (or
+// that reading the last committed state is what is wanted).
+func Load(db *sql.DB) (*Tables, error) {
+	t := New()
+	t.idx = map[string]map[int64]string{"promises": {}, "callbacks": {}, "schedules": {}, "locks": {}, "tasks": {}}
+	tx, err := db.Begin()
+	if err != nil {
+		return nil, err
+	}
+	defer tx.Rollback() //nolint
+	for _, table := range []string{"promises", "callbacks", "schedules", "locks", "tasks"} {
+		if err := loadInto(t, tx, table, ""); err != nil {
+			return nil, err
+		}
+	}
+	if err := loadSeq(t, tx); err != nil {
+		return nil, err
+	}
+	return t, nil
+}
+
+func loadSeq(t *Tables, tx *sql.Tx) error {
+	rows, err := tx.Query(`SELECT name, seq FROM sqlite_sequence`)
+	if err != nil {
+		return nil // no autoincrement table yet
+	}
+	defer rows.Close()
+	for rows.Next() {
+		var name string
+		var seq int64
+		if err := rows.Scan(&name, &seq); err != nil {
+			return err
+		}
+		switch name {
+		case "promises":
+			t.SeqPromises = seq
+		case "schedules":
+			t.SeqSchedules = seq
+		case "tasks":
+			t.SeqTasks = seq
+		}
+	}
+	return nil
+}
+
+// loadInto reads rows of one table (all, or those selected by where) into t.
+func loadInto(t *Tables, tx *sql.Tx, table string, where string, args ...any) error {
+	switch table {
+	case "promises":
+		rows, err := tx.Query(`SELECT rowid, id, sort_id, state, param_headers, param_data, value_headers, value_data, timeout, idempotency_key_for_create, idempotency_key_for_complete, tags, created_on, completed_on FROM promises`+where, args...)
+		if err != nil {
+			return err
+		}
+		defer rows.Close()
+		for rows.Next() {
+			p := &Promise{}
+			var rowid int64
+			var id, ph, pd, vh, vd, ikc, iku, tags sql.NullString
+			var state, timeout, co, cm sql.NullInt64
+			if err := rows.Scan(&rowid, &id, &p.SortId, &state, &ph, &pd, &vh, &vd, &timeout, &ikc, &iku, &tags, &co, &cm); err != nil {
+				return err
+			}
+			p.Id, p.State, p.Timeout = id.String, int(state.Int64), timeout.Int64
+			p.ParamHeaders, p.ParamData, p.ValueHeaders, p.ValueData = ns(ph), ns(pd), ns(vh), ns(vd)
+			p.IkCreate, p.IkComplete, p.Tags, p.CreatedOn, p.CompletedOn = ns(ikc), ns(iku), ns(tags), ni(co), ni(cm)
+			t.Promises[p.Id] = p
+			t.idx[table][rowid] = p.Id
+		}
+		return rows.Err()
+	case "callbacks":
+		rows, err := tx.Query(`SELECT rowid, id, promise_id, root_promise_id, recv, mesg, timeout, created_on FROM callbacks`+where, args...)
+		if err != nil {
+			return err
+		}
+		defer rows.Close()
+		for rows.Next() {
+			c := &Callback{}
+			var rowid int64
+			var id, pid, rid, recv, mesg sql.NullString
+			var timeout, co sql.NullInt64
+			if err := rows.Scan(&rowid, &id, &pid, &rid, &recv, &mesg, &timeout, &co); err != nil {
+				return err
+			}
+			c.Id, c.PromiseId, c.RootPromiseId, c.Recv, c.Mesg, c.Timeout, c.CreatedOn = id.String, pid.String, rid.String, ns(recv), ns(mesg), timeout.Int64, co.Int64
+			t.Callbacks[c.Id] = c
+			t.idx[table][rowid] = c.Id
+		}
+		return rows.Err()
+	case "schedules":
+		rows, err := tx.Query(`SELECT rowid, id, sort_id, description, cron, tags, promise_id, promise_timeout, promise_param_headers, promise_param_data, promise_tags, last_run_time, next_run_time, idempotency_key, created_on FROM schedules`+where, args...)
+		if err != nil {
+			return err
+		}
+		defer rows.Close()
+		for rows.Next() {
+			s := &Schedule{}
+			var rowid int64
+			var id, desc, cron, tags, pid, pph, ppd, ptags, ik sql.NullString
+			var pto, last, next, co sql.NullInt64
+			if err := rows.Scan(&rowid, &id, &s.SortId, &desc, &cron, &tags, &pid, &pto, &pph, &ppd, &ptags, &last, &next, &ik, &co); err != nil {
+				return err
+			}
+			s.Id, s.Description, s.Cron, s.Tags, s.PromiseId, s.PromiseTimeout = id.String, ns(desc), cron.String, ns(tags), pid.String, pto.Int64
+			s.PromiseParamHeaders, s.PromiseParamData, s.PromiseTags, s.LastRunTime, s.NextRunTime, s.IdempotencyKey, s.CreatedOn = ns(pph), ns(ppd), ns(ptags), ni(last), next.Int64, ns(ik), co.Int64
+			t.Schedules[s.Id] = s
+			t.idx[table][rowid] = s.Id
+		}
+		return rows.Err()
+	case "locks":
+		rows, err := tx.Query(`SELECT rowid, resource_id, execution_id, process_id, ttl, CAST(expires_at AS INTEGER) FROM locks`+where, args...)
+		if err != nil {
+			return err
+		}
+		defer rows.Close()
+		for rows.Next() {
+			l := &Lock{}
+			var rowid int64
+			var rid, eid, pid sql.NullString
+			var ttl, exp sql.NullInt64
+			if err := rows.Scan(&rowid, &rid, &eid, &pid, &ttl, &exp); err != nil {
+				return err
+			}
+			l.ResourceId, l.ExecutionId, l.ProcessId, l.Ttl, l.ExpiresAt = rid.String, eid.String, pid.String, ttl.Int64, exp.Int64
+			t.Locks[l.ResourceId] = l
+			t.idx[table][rowid] = l.ResourceId
+		}
+		return rows.Err()
+	case "tasks":
+		rows, err := tx.Query(`SELECT rowid, id, sort_id, process_id, state, root_promise_id, recv, mesg, timeout, counter, attempt, ttl, CAST(expires_at AS INTEGER), created_on, completed_on FROM tasks`+where, args...)
+		if err != nil {
+			return err
+		}
+		defer rows.Close()
+		for rows.Next() {
+			k := &Task{}
+			var rowid int64
+			var id, pid, rid, recv, mesg sql.NullString
+			var state, timeout, counter, attempt, ttl, exp, co, cm sql.NullInt64
+			if err := rows.Scan(&rowid, &id, &k.SortId, &pid, &state, &rid, &recv, &mesg, &timeout, &counter, &attempt, &ttl, &exp, &co, &cm); err != nil {
+				return err
+			}
+			k.Id, k.ProcessId, k.State, k.RootPromiseId, k.Recv, k.Mesg = id.String, ns(pid), int(state.Int64), rid.String, ns(recv), ns(mesg)
+			k.Timeout, k.Counter, k.Attempt, k.Ttl, k.ExpiresAt, k.CreatedOn, k.CompletedOn = timeout.Int64, counter.Int64, attempt.Int64, ttl.Int64, exp.Int64, ni(co), ni(cm)
+			t.Tasks[k.Id] = k
+			t.idx[table][rowid] = k.Id
+		}
+		return rows.Err()
+	}
+	return nil
 }
